@@ -28,7 +28,7 @@ structure MidInv (cfg : Cfg) (G : Ev → Prop) (Ex : Nat → Prop) (s : State) (
   infl_job : ∀ e ∈ s.inflight, (s.jobs e.ino).isSome
   sorted : Sorted G s.inflight
   down : s.up = false → (∀ i, s.jobs i = none) ∧ s.inflight = []
-  skipped : ∀ e ∈ s.skipped, G e → CoversG G s.acked e.ino (e.off, e.data)
+  skipped : ∀ e ∈ s.skipped, ¬ Ex e.ino → CoversG G s.acked e.ino (e.off, e.data)
   bad : ∀ e ∈ s.inflight, ¬ G e → ∃ j, s.jobs e.ino = some j ∧ e.seq ≤ j.ignoreLE
   fresh : ∀ i off data, G ⟨i, cfg.streamOf data, off, s.seqs i (cfg.streamOf data) + 1, data⟩
   exJob : ∀ i, Ex i → (s.jobs i).isSome
